@@ -807,6 +807,10 @@ class Merger:
                     " so as to block unintentional STDIN reading."
                 ).format(basename(sys.argv[0]))
             raise MergeException(ex_message, insert_at)
+        elif insert_at.is_root:
+            # The document itself is a Scalar; there is no parent to update
+            self.data = rhs
+            merge_performed = True
         else:
             lhs_proc.set_value(insert_at, rhs)
             merge_performed = True
